@@ -8,6 +8,7 @@ import (
 	"context"
 	"encoding/json"
 	"fmt"
+	"io/fs"
 	"os"
 	"os/exec"
 	"path/filepath"
@@ -18,6 +19,7 @@ import (
 	"time"
 
 	gogit "github.com/go-git/go-git/v5"
+	"github.com/go-git/go-git/v5/plumbing"
 
 	"github.com/MichaelMure/git-bug/cache"
 	"github.com/MichaelMure/git-bug/entities/bug"
@@ -44,7 +46,10 @@ type Params struct {
 	// the start but is configured on A only by the environment action `addremote`, from outside
 	// the session's repository handle (stock `git remote add`); small alphabet
 	LateRemote bool `json:"late_remote"`
-	HangSec    int  `json:"hang_s"`
+	// PackRefs: the environment may run stock `git pack-refs --all` in A (what git gc does), at
+	// most twice per path (once in wipe runs)
+	PackRefs bool `json:"pack_refs"`
+	HangSec  int  `json:"hang_s"`
 }
 
 func (p Params) String() string { b, _ := json.Marshal(p); return string(b) }
@@ -67,6 +72,7 @@ type model struct {
 	hung    string
 	routes  []string // routes used so far
 
+	packs       int  // times the refs were packed on this path
 	added       bool // R2 was configured (late-remote runs)
 	seenRemotes int  // number of configured remotes when the current repository handle was first asked for them by a removal; -1: not yet
 }
@@ -421,9 +427,58 @@ func (m *model) Close() {
 
 // ---- actions -----------------------------------------------------------------------------------
 
+// allRefs lists every ref of A (loose and packed) with its value through a handle of its own, as
+// stock git would see them.
+func (m *model) allRefs() map[string]string {
+	out := map[string]string{}
+	r, err := gogit.PlainOpen(filepath.Join(m.dir, "A"))
+	if err != nil {
+		return out
+	}
+	it, err := r.References()
+	if err != nil {
+		return out
+	}
+	_ = it.ForEach(func(ref *plumbing.Reference) error {
+		if ref.Type() == plumbing.HashReference && strings.HasPrefix(ref.Name().String(), "refs/") {
+			out[ref.Name().String()] = ref.Hash().String()
+		}
+		return nil
+	})
+	return out
+}
+
+// refStorage renders which git-bug refs are loose files and what packed-refs holds: hidden state
+// of the repository that a removal has to cope with (part of the state key).
+func (m *model) refStorage() string {
+	gitDir := filepath.Join(m.dir, "A", ".git")
+	var parts []string
+	for _, top := range []string{"refs/bugs", "refs/identities", "refs/remotes"} {
+		_ = filepath.WalkDir(filepath.Join(gitDir, top), func(p string, d fs.DirEntry, err error) error {
+			if err == nil && !d.IsDir() {
+				rel, _ := filepath.Rel(gitDir, p)
+				b, _ := os.ReadFile(p)
+				parts = append(parts, "loose "+rel+" "+strings.TrimSpace(string(b)))
+			}
+			return nil
+		})
+	}
+	if b, err := os.ReadFile(filepath.Join(gitDir, "packed-refs")); err == nil {
+		for _, l := range strings.Split(string(b), "\n") {
+			if l != "" && !strings.HasPrefix(l, "#") {
+				parts = append(parts, "packed "+l)
+			}
+		}
+	}
+	sort.Strings(parts)
+	return strings.Join(parts, "\n")
+}
+
 func (m *model) targetRefs() (local bool, all []string) {
-	repo := m.w.Repos["A"]
-	refs, _ := repo.ListRefs("refs/")
+	var refs []string
+	for r := range m.allRefs() {
+		refs = append(refs, r)
+	}
 	suffix := "/" + m.ns() + "/" + string(m.target)
 	for _, r := range refs {
 		if strings.HasSuffix(r, suffix) {
@@ -475,7 +530,13 @@ func (m *model) Actions() []string {
 		if local {
 			out = append(out, "rm-cache")
 		}
+		if m.p.PackRefs && m.packs < 1 {
+			out = append(out, "packrefs")
+		}
 		return out
+	}
+	if m.p.PackRefs && m.packs < 2 {
+		out = append(out, "packrefs")
 	}
 	if !m.removed {
 		out = append(out, "edit")
@@ -643,6 +704,15 @@ func (m *model) apply(k, arg string) (string, []xstate.Violation, error) {
 			return "nothing-to-merge", nil, nil
 		}
 		return strings.Join(parts, ","), nil, nil
+	case "packrefs":
+		// the environment's git gc: every ref moves into packed-refs, the loose files go
+		cmd := exec.Command("git", "pack-refs", "--all")
+		cmd.Dir = filepath.Join(m.dir, "A")
+		if out, err := cmd.CombinedOutput(); err != nil {
+			return "", nil, fmt.Errorf("git pack-refs: %v: %s", err, out)
+		}
+		m.packs++
+		return "ok", nil, nil
 	case "addremote":
 		// the user's own `git remote add`: the session's repository handle is not involved
 		cmd := exec.Command("git", "remote", "add", lateRemote, world.Scheme+"://"+filepath.Join(m.dir, lateRemote))
@@ -697,5 +767,5 @@ func (m *model) Key() (string, error) {
 	}
 	cfg, _ := os.ReadFile(filepath.Join(m.dir, "A", ".git", "config"))
 	cfg = bytes.ReplaceAll(cfg, []byte(m.dir), []byte("$WORLD")) // remote URLs embed the scratch directory
-	return m.w.Key("view\n"+v.Digest(), fmt.Sprint("removed ", m.removed, " told ", m.told, " edits ", m.nEdit, " selected ", m.selection(), " r2 ", m.added, " handle-saw-remotes ", m.seenRemotes), "config\n"+string(cfg))
+	return m.w.Key("view\n"+v.Digest(), fmt.Sprint("removed ", m.removed, " told ", m.told, " edits ", m.nEdit, " selected ", m.selection(), " r2 ", m.added, " handle-saw-remotes ", m.seenRemotes, " packs ", m.packs), "ref storage\n"+m.refStorage(), "config\n"+string(cfg))
 }
